@@ -300,6 +300,30 @@ def run_fol_program(prog):
                     meta["errors"].append("sweeps-differ")
                 lines.append(f"finfer {EPS} {mx} {ids(meta['registered'])} {ids(su)} {ids(sd)}")
                 out.append(f"n {steps} {q(impl.amount(r))}")
+            elif op[0] in ("infer_source", "infer_query"):
+                # restricted inference: Model.infer(source=f) / set_query(f) + infer_query()
+                mx = op[2]
+                o = kb.obj[op[1]]
+                if op[0] == "infer_source":
+                    steps, r = kb.model.infer(source=o, max_steps=mx)
+                else:
+                    # set_query = add_knowledge(formula, world=OPEN): the query's stored rows are reset to UNKNOWN
+                    kb.model.set_query(o)
+                    lines.append(f"fworld {op[1]} 0,1")
+                    out.append("ok")
+                    steps, r = kb.model.infer_query(max_steps=mx)
+                log = impl.take_log()
+                ups, downs = kb.calls(log, "upward"), kb.calls(log, "downward")
+                per_u, per_d = len(ups) // max(steps, 1), len(downs) // max(steps, 1)
+                su, sd = ups[:per_u], downs[:per_d]
+                if steps and (su * steps != ups or sd * steps != downs):
+                    meta["errors"].append("sweeps-differ")
+                meta.setdefault("restricted_calls", []).append(sorted(set(ups) | set(downs)))
+                stops = op[0] == "infer_query" and bool(o.propositional) and not kb.model._converge
+                if steps == 0:
+                    su, sd = [], []
+                lines.append(f"finfer {EPS} {mx} {ids(meta['registered'])} {ids(su)} {ids(sd)}" + (f" {op[1]}" if stops else ""))
+                out.append(f"n {steps} {q(impl.amount(r))}")
             elif op[0] == "fact":
                 add_fact(op[1], tuple(op[2]), op[3], op[4])
             elif op[0] == "get":
@@ -1174,3 +1198,31 @@ def run_partial_quant_data(case):
     except Exception as e:
         res["add_after_inference"] = "EXC:" + type(e).__name__ + ": " + str(e)[:80]
     return res
+
+
+# ------------------------------------------------------------------ C20, first-order part
+
+def run_c20_fol(case):
+    """case: {'kb','facts','source', 'mode': 'source'|'query'}: restricted inference on one model, full inference on a second,
+    identically built one. meta: descendants of the source, tables before / after restricted / after full."""
+    mode = case.get("mode", "source")
+    a = run_fol_program({"kb": case["kb"], "facts": case["facts"],
+                         "ops": [("infer_source" if mode == "source" else "infer_query", case["source"], 40)]})
+    b = run_fol_program({"kb": case["kb"], "facts": case["facts"], "ops": [("infer", 40)]})
+    kb = FolKB(case["kb"])
+    seen, todo = set(), [kb.obj[case["source"]]]
+    while todo:
+        o = todo.pop()
+        if id(o) in seen:
+            continue
+        seen.add(id(o))
+        todo.extend(o.operands)
+    inside = sorted(kb.idof[x] for x in seen if x in kb.idof)
+    tabsa = [o for l, o in zip(a["lines"], a["impl"]) if l.startswith("ftab ")]
+    tabsb = [o for l, o in zip(b["lines"], b["impl"]) if l.startswith("ftab ")]
+    meta = {"inside": inside, "ids": list(kb.order), "errors": a["meta"]["errors"] + b["meta"]["errors"],
+            "before": tabsa[0] if tabsa else None, "restricted": tabsa[-1] if tabsa else None, "full": tabsb[-1] if tabsb else None,
+            "restricted_calls": (a["meta"].get("restricted_calls") or [[]])[0],
+            "full_contra": any(o == "c 1" for o in b["impl"]),
+            "worlds": {i: [q(Fr(float(x))) for x in kb.obj[i].world] for i in kb.order}}
+    return {"lines": a["lines"] + b["lines"], "impl": a["impl"] + b["impl"], "meta": meta}
